@@ -239,15 +239,31 @@ def run_job(job, sim_dir=SIM_DIR, repo_marker=REPO, timeout_factor=30.0, cancel=
         res["status"] = "hang"
         res["why"] = f"random() did not return: no call started or returned for {line[1]} simulated seconds (bound {hang_limit(job)}) while in flight: {calls}"
         return res
-    res["status"], res["why"] = classify_failure(err, repo_marker)
+    res["status"], res["why"] = classify_failure(err, repo_marker, sim_dir)
     return res
 
 
-def classify_failure(err, repo_marker=REPO):
+def _earlier_access_in_draw(err, sim_dir):
+    """A data-race report names two accesses: the current one (with a backtrace) and an earlier one, of which Miri
+    gives the source position in the local crate (`help: and (1) occurred earlier here --> src/main.rs:L`).  True iff
+    that position is a line of the harness that calls random()."""
+    m = re.search(r"occurred earlier here\s*\n\s*--> (src/main\.rs):(\d+)", err)
+    if not m:
+        return False
+    try:
+        lines = open(os.path.join(sim_dir, m.group(1))).read().splitlines()
+        return "::random(" in lines[int(m.group(2)) - 1]
+    except (OSError, IndexError):
+        return False
+
+
+def classify_failure(err, repo_marker=REPO, sim_dir=SIM_DIR):
     """A Miri-reported failure is a *violation* only if the interpreter stopped inside a random() call of the
     code under test: the report's backtrace has a frame of the code under test (<repo>/src) AND a frame of
     the harness function that wraps a draw (one_draw / dyn_random / static_random).  Undefined behaviour
     inside another API call made by the workload (neighbour operations, battery) is not C19's business.
+    A data race is also attributed to random() when the EARLIER of the two racing accesses was made at a random()
+    call site of the harness (Miri reports its source position), whatever safe code the current access is in.
     One more case is attributed to random(): a read of UNINITIALISED memory anywhere outside the constant-operand
     battery — the harness is safe Rust and creates no uninitialised data, so such bytes can only be part of a
     table a draw returned (copies of it travel to the neighbour operation, the invariant check and the log).
@@ -259,6 +275,8 @@ def classify_failure(err, repo_marker=REPO):
     if "Undefined Behavior" in head:
         if in_volute and in_draw:
             return "ub", head
+        if "Data race" in head and _earlier_access_in_draw(err, sim_dir):
+            return "ub", head + " (the earlier of the two racing accesses was made by a random() call; the current one is in the caller's own safe code)"
         if "uninitialized" in head and "battery::" not in err:
             return "ub", head + " (uninitialised bytes in a table returned by random(): the harness is safe Rust and creates none)"
         return "harness", head + (" (undefined behaviour outside a random() call)" if in_volute else "")
